@@ -1,5 +1,6 @@
 import StrumProofs.C05
 import StrumProofs.Lemmas.NamesGen
+import StrumProofs.Source
 /-
 C04 — EnumIter yields every enabled variant exactly once, in declaration order.
 -/
@@ -65,5 +66,14 @@ theorem iter_table_nodup (d : EnumDef) (hid : (d.variants.map (·.ident)).Nodup)
 example : iterTable { variants := [{ ident := [65] }, { ident := [66], disabled := true }, { ident := [67], fields := .tuple 2 }] }
     = [([65], []), ([67], [.dflt, .dflt])] := by decide
 example : collectFuel 3 5 iterInit = [0, 1, 2] := by decide
+
+/-! ### at source level (StrumProofs/Source.lean: `collectAll s = .ok d ↔ s.collectable ∧ d = s.declared`) -/
+
+/-- **C04 at source level**: the iterator's item table lists the identifiers of exactly the variants written without a
+    `disabled` item, in declaration order -/
+theorem source_iter (s : RawSource) :
+    (iterTable s.declared).map (·.1) = (s.variants.filter (fun r => !r.isDisabled)).map (·.ident) := by
+  rw [iter_table, ← EnumDef.enabled, source_enabled]
+  simp [RawVariant.declared, Function.comp_def]
 
 end Strum
